@@ -26,8 +26,8 @@ def _hs():
         H("c09::c09_box_dyn_subscribe", tier=q, desc="Box<dyn Subscribe> (subscriber_impl_body!) transparent for the layer and for the root below it", sym=OPS),
         H("c09::c09_box_sized_subscribe", tier=t, desc="Box<S: Subscribe> transparent", sym=OPS),
         H("c09::c09_option_some_subscribe", tier=q, desc="Some(layer) transparent", sym=OPS),
-        H("c09::c09_vec1_subscribe", tier=q, desc="vec![layer] transparent (all methods but event_enabled / on_id_change)", sym=OPS),
-        H("c09::c09_reload_subscribe", tier=q, desc="reload::Subscriber<layer> transparent (all notifications but on_subscribe)", sym=OPS),
+        H("c09::c09_vec1_subscribe", tier=q, desc="vec![layer] transparent (every method)", sym=OPS),
+        H("c09::c09_reload_subscribe", tier=q, desc="reload::Subscriber<layer> transparent (every method incl. on_subscribe)", sym=OPS),
         H("c09::c09_identity_outer", tier=q, desc="layer.and_then(Identity) behaves as layer", sym=OPS),
         H("c09::c09_identity_inner", tier=t, desc="Identity.and_then(layer) behaves as layer", sym=OPS),
         H("c09::c09_box_dyn_of_some", tier=t, desc="nesting 2: Box<dyn>(Some(layer))", sym=OPS),
@@ -76,13 +76,20 @@ def _hs():
         H("c09::c09_stack3_tree_on_list", tier=t, desc="3 layers (2,3) on 1-on-root", sym=OPS),
         H("c09::c09_stack3_list_on_tree", tier=t, desc="3 layers 3 on (1,2)-on-root", sym=OPS),
         H("c09::c09_stack3_wrapped", tier=t, desc="3 layers, each wrapped differently (Some / Box<dyn> / reload)", sym=OPS),
+        # (c') Vec of 2..3 elements: every element, exactly once, in element order, whatever the elements answer
+        H("c09::c09_vec3_register_callsite", tier=q, desc="vec![l1, l2, l3] on the root: register_callsite reaches EVERY element exactly once in element order for all 27 interest answers; combined interest = agreed value else sometimes", sym="per-element interest answers, root answers, metadata"),
+        H("c09::c09_vec2_register_callsite", tier=q, desc="vec![l1, l2]: the same for two elements", sym="per-element interest answers, root answers, metadata"),
+        H("c09::c09_vec3_under_layer_register_callsite", tier=q, desc="vec![l1, l2, l3] inside a tree under a fourth layer: unless the outer layer answers never, all elements are told once, in order", sym="per-element interest answers"),
+        H("c09::c09_vec2_elements", tier=q, desc="vec![l1, l2]: every notification kind reaches every element exactly once in element order after the root; enabled / event_enabled stop at the first veto; hint stops at the first element without one", sym=OPS),
+        H("c09::c09_vec3_elements", tier=t, desc="vec![l1, l2, l3]: the same for three elements", sym=OPS),
+        H("c09::c09_vec3_register_dispatch", tier=q, desc="on_register_dispatch reaches each of 3 Vec elements once, in order", sym="answers"),
         H("c09::c09_stack3_tree_register_dispatch", tier=q, desc="on_register_dispatch reaches each of 3 layers of a tree exactly once (Subscribe for Layered)", sym="answers"),
         # (d) filter wrappers
         H("c09::c09_filter_option_some", tier=q, desc="Some(filter): every Filter method forwarded", sym=OPS),
         H("c09::c09_filter_option_none", tier=q, desc="None::<F>: always / true / no hint / true, no callbacks", sym=OPS),
         H("c09::c09_filter_box_dyn", tier=q, desc="Box<dyn Filter> (filter_impl_body!)", sym=OPS),
         H("c09::c09_filter_arc_dyn", tier=q, desc="Arc<dyn Filter> (filter_impl_body!)", sym=OPS),
-        H("c09::c09_filter_reload", tier=q, desc="reload::Subscriber<F> as a Filter: all methods but event_enabled", sym=OPS),
+        H("c09::c09_filter_reload", tier=q, desc="reload::Subscriber<F> as a Filter: every method", sym=OPS),
         H("c09::c09_filter_some_of_box_dyn", tier=t, desc="nesting 2: Some(Box<dyn Filter>)", sym=OPS),
         H("c09::c09_filter_arc_of_some", tier=t, desc="nesting 2: Arc<dyn Filter>(Some(filter))", sym=OPS),
         H("c09::c09_filter_reload_event_enabled", tier=q, kind="finding", role="reload_filter_event_enabled",
@@ -110,9 +117,9 @@ SPEC = {
     ],
     "sym": OPS,
     "bounds": "stacks of 1..3 recording layers in every Layered nesting (tree / list / mixed) on a light recording root collector; "
-              "wrapper nesting <= 2; Vec of 0..1 elements; one notification per query (the op-code is symbolic, so every method "
+              "wrapper nesting <= 2; Vec of 0..3 elements (2..3: exactly-once and element order per notification kind); one notification per query (the op-code is symbolic, so every method "
               "is covered by the same query); unwind 2..5 with unwinding assertions",
-    "outside": "stacks of 4-5 layers; Vec of >= 2 elements (element order is C08/F7 territory); the Registry as root collector "
+    "outside": "stacks of 4-5 layers; Vec of >= 4 elements; the Registry as root collector "
                "(inner_is_registry and per-subscriber-filter paths of pick_interest / pick_level_hint; C07 covers Filtered); "
                "downcast_raw beyond the None-layer marker; the deprecated Collect::drop_span (Box/Arc do not forward it; Dispatch "
                "never calls it); Arc<S>: Subscribe does not exist in this tree; order of on_register_dispatch / on_subscribe inside "
@@ -136,8 +143,8 @@ SPEC = {
                 "filter methods are asked outside-in up to the first veto. This is the right level because forwarding is "
                 "hand-written per wrapper per method: the defect class is one missing or constant-returning method, which only "
                 "an all-methods x all-answers comparison exposes.",
-        "note": "Bounded: <= 3 layers, nesting <= 2, light root collector instead of the Registry. Eleven forwarding / absence "
-                "deviations are isolated in finding harnesses (see KNOWN_FINDINGS.txt or the VIOLATION lines). Trusts rustc MIR, "
+        "note": "Bounded: <= 3 layers / Vec elements, nesting <= 2, light root collector instead of the Registry. Forwarding / "
+                "absence deviations are isolated in finding harnesses (seven repaired in /repo, four listed in KNOWN_FINDINGS.txt). Trusts rustc MIR, "
                 "Kani, CBMC, CaDiCaL and the recording objects.",
         "design_ref": "DESIGN.md §6 C09",
     },
